@@ -65,6 +65,7 @@ class Ctx:
         self.rule_text: Dict[str, str] = {}
         self.floors: Dict[str, int] = {}
         self.notes: List[str] = []
+        self.deferred: List[str] = []
 
     # -------------------------------------------------------------- recording
     def rule(self, rule: str, text: str, floor: int = 0) -> None:
@@ -102,6 +103,10 @@ class Ctx:
 
     def note(self, text: str) -> None:
         self.notes.append(text)
+
+    def defer(self, text: str) -> None:
+        """A clause that could not be analysed: fails the run as ANALYSIS-ERROR once the other rules have reported."""
+        self.deferred.append(text)
 
     def count(self, rule: str) -> int:
         return sum(1 for i in self.instances if i["rule"] == rule)
